@@ -14,6 +14,7 @@ import (
 	"github.com/zitadel/logging"
 
 	"verif/harness/internal/attrquery"
+	"verif/harness/internal/c07"
 	"verif/harness/internal/c09"
 	"verif/harness/internal/c10"
 	"verif/harness/internal/c11"
@@ -48,6 +49,8 @@ func main() {
 	stdlog.SetOutput(io.Discard)
 	var err error
 	switch prop {
+	case "C07":
+		err = c07.Run(*out, *tier, *seed)
 	case "C09":
 		err = c09.Run(*out, *tier, *seed)
 	case "C10":
